@@ -1606,3 +1606,13 @@ M("C02-benign-keyword-test-not-not", "C02", "src/interrogatedb/py_support.cxx",
   "      return PyUnicode_CheckExact(key) && _PyUnicode_EqualToASCIIString(key, keyword);",
   "      return PyUnicode_CheckExact(key) && _PyUnicode_EqualToASCIIString(key, keyword) != 0;",
   benign=True)
+
+# ---------------------------------------------------------------- R09.9 (F-C08b)
+M("C09-directive-args-scan-literals-for-comments", "C09", "src/cppparser/cppPreprocessor.cxx",
+  "    } else if (c == '\"' ||\n               (c == '\\'' && (args.empty() || !isalnum(args[args.size() - 1])))) {",
+  "    } else if (false) {",
+  expect="R09.9|get_preprocessor_args|literal-branch")
+M("C09-directive-literal-ignores-escapes", "C09", "src/cppparser/cppPreprocessor.cxx",
+  "      while (c != EOF && c != '\\n' && c != quote_mark) {\n        if (c == '\\\\') {\n          int next_c = get();\n          if (next_c == '\\n') {\n            args += '\\n';\n            c = get();\n            continue;\n          }\n          args += c;\n          if (next_c == EOF) {\n            c = next_c;\n            break;\n          }\n          c = next_c;\n        }\n        args += c;\n        c = get();\n      }",
+  "      while (c != EOF && c != '\\n' && c != quote_mark) {\n        args += c;\n        c = get();\n      }",
+  expect="R09.9|get_preprocessor_args|literal-branch|escapes")
